@@ -90,7 +90,7 @@ func Explicit(in Input, obs *Obs) Input {
 	return Input{Scenario: &sc, Acts: acts}
 }
 
-var profile = opsim.Profile{Name: "c04", MaxHooks: 3, Steps: 30, PFail: 50, PHold: 25, V0: false}
+var profile = opsim.Profile{Name: "c04", MaxHooks: 3, Steps: 30, PFail: 50, PHold: 25, V0: false, PWait: 40, PShort: 10}
 
 func init() { opsim.RegisterProfile(profile) }
 
@@ -102,6 +102,15 @@ func Corpus() []opsim.Scenario {
 		// allowFailure=true alone: dropped
 		{Cfg: []opsim.Hook{{Id: 1, Sched: []opsim.SB{{Name: 1, Queue: 1, Allow: true, Cron: 1}}}},
 			Acts: []opsim.Action{{Kind: "Boot"}, {Kind: "Tick", C: 1}, {Kind: "Tick", C: 1}, {Kind: "Finish", Q: 1, Ok: false}, {Kind: "Finish", Q: 1, Ok: false}}},
+		// a positive back-off: the failed task stays the head while ticks arrive and the other queue works on; after the delay it runs again with what was merged
+		{Cfg: []opsim.Hook{{Id: 1, Sched: []opsim.SB{{Name: 1, Queue: 1, Cron: 1}, {Name: 2, Queue: 2, Cron: 2}}}},
+			Acts: []opsim.Action{{Kind: "Boot"}, {Kind: "Tick", C: 1}, {Kind: "Tick", C: 2}, {Kind: "FinishWait", Q: 1}, {Kind: "Tick", C: 1}, {Kind: "Finish", Q: 2, Ok: true}, {Kind: "Tick", C: 1}, {Kind: "Finish", Q: 1, Ok: true}, {Kind: "Elapse", Q: 1}, {Kind: "FinishWait", Q: 1}, {Kind: "Elapse", Q: 1}, {Kind: "Finish", Q: 1, Ok: true}}},
+		// a positive back-off after an allowed failure does not happen: the task is dropped
+		{Cfg: []opsim.Hook{{Id: 1, Sched: []opsim.SB{{Name: 1, Queue: 1, Allow: true, Cron: 1}}}},
+			Acts: []opsim.Action{{Kind: "Boot"}, {Kind: "Tick", C: 1}, {Kind: "Tick", C: 1}, {Kind: "FinishWait", Q: 1}, {Kind: "Elapse", Q: 1}, {Kind: "Finish", Q: 1, Ok: true}}},
+		// a short back-off that ends by itself
+		{Cfg: []opsim.Hook{{Id: 1, Sched: []opsim.SB{{Name: 1, Queue: 1, Cron: 1}}}},
+			Acts: []opsim.Action{{Kind: "Boot"}, {Kind: "Tick", C: 1}, {Kind: "FinishWait", Q: 1, Short: true}, {Kind: "Elapse", Q: 1}, {Kind: "Finish", Q: 1, Ok: true}}},
 		// grouped Synchronization failing, retried with newly merged contexts
 		{Cfg: []opsim.Hook{{Id: 1, Kube: []opsim.KB{{Name: 1, Group: 1, ExecSync: true}, {Name: 2, Group: 1, ExecSync: true, Allow: true}}}},
 			Acts: []opsim.Action{{Kind: "Boot"}, {Kind: "Finish", Q: 0, Ok: false}, {Kind: "Finish", Q: 0, Ok: false}, {Kind: "Finish", Q: 0, Ok: true}}},
